@@ -277,16 +277,42 @@ func contextRefName(contextOfCall protoreflect.Descriptor, refElement protorefle
 	refPath := pathToPackage(refElement)
 	contextPath := pathToPackage(contextOfCall)
 
-	for i := 0; i < len(contextPath); i++ {
+	strip := 0
+	for strip < len(contextPath) {
 		// never strip the referenced element's own name: a message which
 		// refers to itself or to one of its parents is still named
-		if len(refPath) <= 1 || refPath[0] != contextPath[i] {
+		if len(refPath)-strip <= 1 || refPath[strip] != contextPath[strip] {
 			break
 		}
-		refPath = refPath[1:]
+		strip++
 	}
 
-	return strings.Join(refPath, "."), nil
+	// A relative name is looked up from the innermost scope outwards, so a
+	// type nested in the context message, or in one of its parents below the
+	// level the name is relative to, captures it when it has the name of the
+	// first element. Keep more of the path until the name leads back to the
+	// referenced element.
+	for ; strip >= 0; strip-- {
+		if !nestedTypeCaptures(contextOfCall, len(contextPath)-strip, refPath[strip]) {
+			return strings.Join(refPath[strip:], "."), nil
+		}
+	}
+
+	return "." + string(refElement.FullName()), nil
+}
+
+// nestedTypeCaptures reports whether one of the innermost 'levels' scopes
+// around (and including) the context declares a nested type called name.
+func nestedTypeCaptures(context protoreflect.Descriptor, levels int, name string) bool {
+	for ; levels > 0 && context != nil; levels-- {
+		if msg, ok := context.(protoreflect.MessageDescriptor); ok {
+			if msg.Messages().ByName(protoreflect.Name(name)) != nil || msg.Enums().ByName(protoreflect.Name(name)) != nil {
+				return true
+			}
+		}
+		context = context.Parent()
+	}
+	return false
 }
 
 func pathToPackage(refElement protoreflect.Descriptor) []string {
